@@ -311,7 +311,7 @@ var allTypes = []dtype{tKV, tHash, tList, tSet, tZSet}
 func cmdType(name string) dtype {
 	switch name {
 	case "set", "setnx", "setex", "setifeq", "delifeq", "getset", "incr", "incrby", "append", "setrange", "del", "expire",
-		"persist", "plset", "get", "mget", "getrange", "strlen", "exists", "ttl", "stale.getversion", "stale.getexpired", "getnolock":
+		"persist", "plset", "get", "mget", "getrange", "strlen", "exists", "ttl", "stale.getversion", "stale.getexpired", "getnolock", "pfadd", "pfcount":
 		return tKV
 	}
 	if strings.HasPrefix(name, "h") {
@@ -404,6 +404,7 @@ type dres struct {
 
 type dnode struct {
 	eng, pol string
+	opts     *node.KVOptions
 	dir      string
 	vn       *node.VerifNode
 	kv       *node.KVStore
@@ -412,6 +413,7 @@ type dnode struct {
 
 func openNode(eng, pol string) (*dnode, error) {
 	dataQuiet()
+	rockredis.VerifRawSkipPrefix = [][]byte{append([]byte{rockredis.KVType}, []byte("t:pf")...)}
 	dir, err := ioutil.TempDir("", "zvh-data")
 	if err != nil {
 		return nil, err
@@ -444,7 +446,22 @@ func openNode(eng, pol string) (*dnode, error) {
 		os.RemoveAll(dir)
 		return nil, err
 	}
-	return &dnode{eng: eng, pol: pol, dir: dir, vn: vn, kv: vn.Store()}, nil
+	return &dnode{eng: eng, pol: pol, opts: opts, dir: dir, vn: vn, kv: vn.Store()}, nil
+}
+
+// restart closes the node's store and opens it again on the same directory (a clean restart of the data node: the
+// state machine starts from what is on disk, every in-memory cache is gone). Only for persistent engines.
+func (n *dnode) restart() error {
+	func() {
+		defer func() { recover() }()
+		n.vn.Close()
+	}()
+	vn, err := node.NewVerifNode(n.opts, dataNS+"-0")
+	if err != nil {
+		return err
+	}
+	n.vn, n.kv = vn, vn.Store()
+	return nil
 }
 
 func (n *dnode) close() {
@@ -939,6 +956,15 @@ func (n *dnode) dump(keys map[string]bool, tables map[string]bool) string {
 	var out []string
 	for _, t := range allTypes {
 		for _, k := range ks {
+			if strings.Contains(k, ":t:pf") {
+				// a HyperLogLog: the stored sketch has no canonical byte form, the value is its count
+				if t == tKV {
+					if v := one(n.rd("pfcount", k)); v.k == 'i' && v.n != 0 {
+						out = append(out, "hll "+hexs([]byte(k))+" "+strconv.FormatInt(v.n, 10)+" none")
+					}
+				}
+				continue
+			}
 			c := n.content(t, []byte(k))
 			if c == "" {
 				continue
